@@ -40,7 +40,8 @@ RULE = (
     "isotherm and for the isosteric enthalpy every sibling isotherm is converted independently (siblings share the "
     "loading basis, which the routine requires). Oracle: result(original) == result(converted clone) field by field; "
     "initial Henry constants and the isosteric loading axis, which are reported in the isotherm's own units, change by "
-    "the factor of the independent ref_units model; with a scale factor c in [1e-3, 1e3] applied to all loadings "
+    "the factor of the independent ref_units model; with a scale factor c in [1e-3, 1e3] applied to all loadings (a third "
+    "of the cases) "
     "extensive fields are multiplied by c (BET/Langmuir plot slope and intercept by 1/c, the Dubinin intercept shifts "
     "by ln c) and intensive fields are unchanged. Manual pressure / thickness limits are placed strictly between "
     "neighbouring data points; a case whose automatic limit falls within rel 1e-9 of a data point is skipped "
@@ -50,29 +51,39 @@ RULE = (
 ASSUMPTIONS = [
     "material-unit conversions are not part of the invariance claim (results are reported per stored material unit); "
     "fraction / percent loading targets are outside the quantifier",
-    "regression / closed-form outputs: rel 1e-8 times the conditioning factor of the derived quantity (e.g. C = 1 + "
-    "slope/intercept is compared with rel 1e-8 * (|slope|*p_max + |intercept|) / |intercept|); arrays additionally with an "
-    "absolute floor of 1e-11 * max|array| (observed worst deviation on the unchanged tree: see the probe figures in "
-    "the module docstrings; conversions are exact up to a few ulp per value because the library converts there and back "
-    "with the same constants)",
+    "conversions are the metamorphic transformation (their correctness is C02): the library converts the stored data "
+    "and the routine converts it back with the same constants, so results agree to a few ulp per value; observed "
+    "worst relative deviation on the unchanged tree 2e-13 (regressions), 7e-14 (mesopore widths), 7.5e-8 nm (HK widths)",
+    "regression / closed-form outputs: rel 1e-9 times the conditioning factor of the derived quantity (e.g. C = 1 + "
+    "slope/intercept is compared with rel 1e-9 * (|slope|*p_max + |intercept|) / |intercept|; an intercept with an "
+    "absolute floor of 1e-9 * (|slope|*x_max + |intercept|)); arrays additionally with an absolute floor of 1e-11 * "
+    "max|array|; classical mesopore recurrences rel 1e-8 with a floor of 1e-10 of the largest volume in play",
     "Horvath-Kawazoe widths come from scipy's bounded Brent minimiser (xatol 1e-5 nm): mid-point widths are compared with "
-    "abs 1e-4 nm, the cumulative volume with rel 1e-8, and each pore_distribution value (a quotient dV/dw) with rel "
-    "1e-8 + 4e-5 nm / |dw| where dw = dV / distribution is the width difference the library divided by",
-    "DA with the exponent left free: minimize_scalar 'bounded' (xatol 1e-5): exponent abs 2e-4, the outputs that depend on "
-    "the exponent rel 2e-3",
+    "abs 5e-5 nm, the cumulative volume with rel 1e-9, and each pore_distribution value (a quotient dV/dw) with rel "
+    "1e-9 + 4e-5 nm / |dw| where dw = dV / distribution is the width difference the library divided by",
+    "DA with the exponent left free: minimize_scalar 'bounded' (xatol 1e-5): exponent abs 2e-5, the outputs that depend on "
+    "the exponent rel 2e-4 (observed 1.5e-10 / 1e-9)",
     "psd_dft (non-negative least squares, exact active-set solver): fitted kernel_loading rel 1e-9, distribution and "
     "cumulative volume rel 1e-8 with a floor of 1e-9 of their maximum (the contributions solve an ill-conditioned linear "
     "system; observed worst deviation 1e-12); psd_dft is not in the property's list of entry points but produces one "
     "of the 'pore-size distributions' of its statement",
     "initial_henry_slope / initial_henry_virial run scipy least_squares with default tolerances (1e-8): the converted "
     "constant must equal factor x original within 1e-5 (slope) / 1e-4 (virial) plus the documented inaccuracy of "
-    "rounded unit constants (ref_units.UNIT_INACCURACY)",
+    "rounded unit constants (ref_units.UNIT_INACCURACY: cm3(STP) 1.2e-4, torr/mmHg 1e-5, amu 2e-6), because the expected "
+    "factor comes from the independent ref_units model",
     "CoolProp PropsSI (high level) is the source of p_sat, molar mass and saturated densities for the expected unit "
     "factors of results reported in the isotherm's own units",
     "alpha-s: the sample's pressure range lies strictly inside the reference's (documented precondition of the "
-    "interpolation; a unit round trip may move an end point by one ulp); reference_area is 'BET', 'langmuir' or a number",
+    "interpolation; a unit round trip may move an end point by one ulp); reference_area is 'BET', 'langmuir' or a number; "
+    "references are point isotherms (a ModelIsotherm cannot be converted)",
     "isosteric enthalpy: sibling isotherms keep one common loading basis and the stored material basis (otherwise the "
-    "routine refuses by design); loading points are the routine's default grid",
+    "routine refuses by design); loading points are the routine's default grid, which needs a common loading range "
+    "(cases without one are skipped and labelled); with two isotherms correlation and standard error (0/0) are not compared",
+    "automatic windows: a case whose automatic limit (Rouquerol 10 % mark or a tie in n(1-p), Langmuir 5 % / 90 % marks, "
+    "the PSD defaults 0.1 / 0.99 / 0.2) lies within rel 1e-9 of a data point is skipped: the property is silent about "
+    "points on a limit and a conversion moves them by an ulp",
+    "HK on gases other than N2 passes an adsorbate_model dictionary (the registry only carries the HK parameters of "
+    "nitrogen); liquid density and molar mass in it come from CoolProp",
     "sample data are read from $VERIF_REPO/docs/examples/data, falling back to /repo/docs/examples/data when a scratch "
     "copy holds only src/",
 ]
@@ -486,7 +497,7 @@ def near_any(x, values, rel=1e-9):
     return False
 
 
-def ordered(iso, branch, **kw):
+def ordered(iso, branch):
     """Relative pressures of a branch in the order the characterisation routines use."""
     p = iso.pressure(branch=branch, pressure_mode="relative")
     if p is None:
@@ -1144,6 +1155,25 @@ def _own_limit(o, branch, which, pos):
     return float(xs[k - 1] + pos[1] * (xs[k] - xs[k - 1]))
 
 
+HENRY_SOLVER_TOL = {"slope": 1e-5, "virial": 1e-4}
+
+
+def _henry_slope_kwargs(o, desc, branch):
+    kw = {}
+    if desc["limits"]:
+        lim = _own_limit(o, branch, desc["limits"], desc["limit_pos"])
+        if lim is not None:
+            kw["p_limits" if desc["limits"] == "p" else "l_limits"] = [0, lim]
+    return kw
+
+
+def _henry_run(o, desc, branch):
+    if desc["method"] == "virial":
+        return float(initial_henry_virial(o))
+    return float(initial_henry_slope(o, branch=branch, max_adjrms=desc["max_adjrms"],
+                                     **_henry_slope_kwargs(o, desc, branch)))
+
+
 def check_henry(desc, ctx):
     iso = build_iso(desc["iso"])
     method = desc["method"]
@@ -1154,14 +1184,7 @@ def check_henry(desc, ctx):
     branch = pick_branch(iso, desc) if method == "slope" else "ads"
 
     def run(o, role=None):
-        if method == "virial":
-            return float(initial_henry_virial(o))
-        kw = {}
-        if desc["limits"]:
-            lim = _own_limit(o, branch, desc["limits"], desc["limit_pos"])
-            if lim is not None:
-                kw["p_limits" if desc["limits"] == "p" else "l_limits"] = [0, lim]
-        return float(initial_henry_slope(o, branch=branch, max_adjrms=desc["max_adjrms"], **kw))
+        return _henry_run(o, desc, branch)
 
     what = f"{entry}({iso_key(desc['iso'])} stored {reps(iso)}" + (
         f", branch={branch!r}, max_adjrms={desc['max_adjrms']}, limits={desc['limits']}" if method == "slope" else "") + ")"
@@ -1178,7 +1201,7 @@ def check_henry(desc, ctx):
         ctx.label("refused_both")
         raise Inconclusive()
     k0, k1 = outcomes[0][1], outcomes[1][1]
-    solver = 1e-5 if method == "slope" else 1e-4
+    solver = HENRY_SOLVER_TOL[method]
     tol = solver + unit_tol
     want = k0 * factor
     _observe(f"{entry}:units:K", abs(k1 - want), tol * abs(want))
@@ -1379,33 +1402,101 @@ def kf_isosteric_tdep_loading(check_name, desc, viol):
         "isosteric:units:correlation", "isosteric:units:std_errs")
 
 
-def _henry_magnitudes(desc, clause):
-    """Largest stored loading number of the two isotherms the violated clause compares."""
+def _henry_data(o, desc, branch):
+    """The rows initial_henry_slope works on, in the isotherm's own units (same selection rules)."""
+    kw = _henry_slope_kwargs(o, desc, branch)
+    if kw:
+        p = o.pressure(branch=branch, indexed=True, limits=kw.get("p_limits") or [-np.inf, np.inf])
+        q = o.loading(branch=branch, indexed=True, limits=kw.get("l_limits") or [-np.inf, np.inf])
+        p, q = p.align(q, join="inner")
+        p, q = p.values.astype(float), q.values.astype(float)
+    else:
+        p, q = np.asarray(o.pressure(branch=branch), dtype=float), np.asarray(o.loading(branch=branch), dtype=float)
+    if p[0] != 0 and q[0] != 0:
+        p, q = np.hstack(([0.0], p)), np.hstack(([0.0], q))
+    return p, q
+
+
+def _henry_loop(p, q, max_adjrms, fit):
+    """The row-dropping rule of initial_henry_slope around a fit(p, q) -> (K, rmse relative to the loading range)."""
+    rows = len(p)
+    while True:
+        k, rmse = fit(p[:rows], q[:rows])
+        if rmse > max_adjrms and rows > 2:
+            rows -= 1
+            continue
+        return k
+
+
+def _henry_model_not_converged(o, desc, branch):
+    """Does the library's Henry MODEL fit (scipy least_squares on the raw numbers), driven through the row-dropping
+    rule on this isotherm's own-unit data, miss the closed-form least-squares constant K = sum(p n) / sum(p^2)?"""
+    from pygaps.modelling import get_isotherm_model
+    p, q = _henry_data(o, desc, branch)
+    rng = float(np.max(q) - np.min(q))
+
+    def exact(pp, qq):
+        k = float(np.sum(pp * qq) / np.sum(pp ** 2))
+        return k, math.sqrt(float(np.sum((k * pp - qq) ** 2)) / len(pp)) / rng
+
+    henry = get_isotherm_model("Henry")
+    henry.pressure_range = [min(p), max(p)]
+    henry.loading_range = [min(q), max(q)]
+
+    def lib(pp, qq):
+        henry.fit(pp, qq, henry.initial_guess(pp, qq))
+        return float(henry.params["K"]), float(henry.rmse)
+
+    k_ls = _henry_loop(p, q, desc["max_adjrms"], exact)
+    k_lib = _henry_loop(p, q, desc["max_adjrms"], lib)
+    return abs(k_lib - k_ls) > 0.25 * HENRY_SOLVER_TOL["slope"] * abs(k_ls)
+
+
+def _virial_model_not_converged(o):
+    """Does the library's Virial MODEL fit on this isotherm's own-unit data miss the K of the least-squares cubic
+    ln(p/n) = -ln K + A n + B n^2 + C n^3 (solved here by QR on scaled loadings)?"""
+    p, q = np.asarray(o.pressure(branch="ads"), dtype=float), np.asarray(o.loading(branch="ads"), dtype=float)
+    m = (p > 0) & (q > 0)
+    p, q = p[m], q[m]
+    x = q / np.max(q)
+    A = np.column_stack([np.ones_like(x), x, x ** 2, x ** 3])
+    coef, *_ = np.linalg.lstsq(A, np.log(p / q), rcond=None)
+    k_ls = math.exp(-float(coef[0]))
+    k_lib = float(pygaps.ModelIsotherm.from_pointisotherm(o, model="Virial").model.params["K"])
+    return abs(k_lib - k_ls) > 0.25 * HENRY_SOLVER_TOL["virial"] * abs(k_ls)
+
+
+def _henry_fit_not_converged(check_name, desc, viol, method):
+    """True when, on one of the two isotherms the violated clause compares, the library's model fit does not reach
+    the least-squares minimum of that isotherm's own data (beyond a quarter of the check's solver tolerance)."""
+    if check_name != "henry_" + method:
+        return False
+    entry = "initial_henry_" + method
+    if viol.tag not in (entry + ":units:K", entry + ":scale:K"):
+        return False
     iso = build_iso(desc["iso"])
-    m0 = float(np.max(np.abs(iso.loading())))
-    if clause == "scale":
-        return m0, m0 * desc["scale"]
-    conv = convert_clone(iso, desc["tgt"])
-    return m0, float(np.max(np.abs(conv.loading())))
+    other = scaled_clone(iso, desc["scale"]) if viol.tag.endswith(":scale:K") else convert_clone(iso, desc["tgt"])
+    branch = pick_branch(iso, desc) if method == "slope" else "ads"
+    for o in (iso, other):
+        if (_henry_model_not_converged(o, desc, branch) if method == "slope" else _virial_model_not_converged(o)):
+            return True
+    return False
 
 
 def kf_henry_slope_small_numbers(check_name, desc, viol):
     """initial_henry_slope fits with scipy least_squares on the raw numbers; its absolute gradient tolerance stops the
-    fit early when the stored loadings are small numbers (all below 1 in the isotherm's own units, e.g. mol or kg per g):
-    K is off by 1e-4 ... x280."""
-    if check_name != "henry_slope" or viol.tag not in ("initial_henry_slope:units:K", "initial_henry_slope:scale:K"):
-        return False
-    return min(_henry_magnitudes(desc, viol.tag.split(":")[1])) < 1.0
+    fit before the least-squares minimum when the stored loadings are small numbers (e.g. mol or kg per g): K is off by
+    1e-4 ... x280. Class: on the own-unit numbers of one of the two isotherms compared, the library's Henry model fit
+    does not reach the closed-form least-squares constant."""
+    return _henry_fit_not_converged(check_name, desc, viol, "slope")
 
 
 def kf_henry_virial_loading_scale(check_name, desc, viol):
     """Virial.fit regresses ln(p/n) on n, n^2, n^3 with the raw numbers: when the stored loadings are not of order
-    1-100 (or change by more than 10x between the two isotherms compared) the columns are badly scaled, least_squares
-    stops early and K differs (1e-4 ... x450)."""
-    if check_name != "henry_virial" or viol.tag not in ("initial_henry_virial:units:K", "initial_henry_virial:scale:K"):
-        return False
-    m0, m1 = _henry_magnitudes(desc, viol.tag.split(":")[1])
-    return min(m0, m1) < 1.0 or max(m0, m1) > 100.0 or abs(math.log10(m1 / m0)) >= 1.0
+    1-100 the columns are badly scaled and least_squares stops before the minimum (K off by 1e-4 ... x450). Class: on
+    the own-unit numbers of one of the two isotherms compared, the library's Virial model fit does not reach the
+    least-squares constant."""
+    return _henry_fit_not_converged(check_name, desc, viol, "virial")
 
 
 KNOWN_PREDICATES = [kf_alphas_reference_pressure_mode, kf_isosteric_tdep_loading,
